@@ -29,10 +29,10 @@ CHECKS = {
                   'outcome of an explicit-state reference of Go channel semantics (value identities decided by z3).', design_ref='DESIGN.md §4 C03',
              note='trusted: the reference semantics (class Ref in harness/C03/check.py), engine/jsx, acorn, z3. Fairness beyond "a woken goroutine is scheduled" is outside the claim.',
              technique='exhaustive exploration of the runtime\'s nondeterministic choices as solver-level choice variables over the real prelude + explicit-state reference model of Go channels; payload equalities by z3'),
- 'C04': tv('22 generic templates: per-instance arithmetic width for all operand values (add/mul/neg/shift/conversion at int8..uint32, int, named types, 64-bit add/neg), zero values of every kind, generic types with '
-           'methods / embedding / interfaces, constraints with methods and core types, nested and recursive instantiation through other generic code, types declared inside generic functions, blocking inside generic code for '
+ 'C04': tv('29 generic templates: per-instance arithmetic width for all operand values (add/mul/neg/shift/conversion at int8..uint32, int, named types, 64-bit add/neg), zero values of every kind, generic types with '
+           'methods / embedding / interfaces, constraints with methods and core types, nested and recursive instantiation through other generic code, types (also generic and self-referential ones) declared inside generic functions and anonymous types built from them, comparability and map keys of instances whose type argument comes from a package set up later, blocking inside generic code for '
            'every subset of yield points, instances created in and across two packages; identity and distinctness of instances decided on every path by type switches, assertions, interface equality and map keys under symbolic '
-           'selectors. A valid template on which the compiler aborts with an internal error counts as a violation.', 'DESIGN.md §4 C04'),
+           'selectors. A valid template on which the compiler aborts with an internal error (bailout or crashed compiler process) counts as a violation.', 'DESIGN.md §4 C04'),
  'C05': tv('14 programs that reach code only through the indirections the property lists (interfaces incl. interface method expressions, method values/expressions, embedding incl. embedded interfaces and anonymous structs, '
            'generic instances reached through other generic code and local types in generic functions, side-effecting initialisers of unused variables, go:linkname in both import directions, another package, go/defer entry points, '
            'function tables, types used only in assertions, error/panic values) are linked twice by the real compiler - normally and by a variant that keeps every declaration alive (one added statement, injected with go build -overlay) - '
@@ -44,7 +44,7 @@ CHECKS = {
  'C07': tv('30 alias probes: every copying context (assign, call argument, return, range value, send, select-send, map/slice/field store, interface boxing, method value, value receiver, embedding, '
            'closure capture, dereference) and aliasing context (pointers to fields/elements/package variables, subslices, append within/over capacity, maps, closures, copy) with symbolic stored values; '
            'printed values must equal the specification for all int16 pairs and symbolic indices/lengths.', 'DESIGN.md §4 C07'),
- 'C08': tv('28 templates: run-time checks (array/slice/string index, 2- and 3-index slicing, make, slice-to-array, nil map / pointer / func, divide by zero, type assertion, uncomparable interface comparison, '
+ 'C08': tv('32 templates: run-time checks (array/slice/string index, 2- and 3-index slicing, make, slice-to-array, nil map / pointer / func, divide by zero incl. constant dividends, type assertion, uncomparable interface comparison incl. the same boxed value on both sides and uncomparable fields nested in structs/arrays declared in either order, '
            'close/send on nil/closed channels) with full-width symbolic indices, and defer/recover shapes (LIFO, argument capture, named results, indirect recover, re-panic, nested recover, panic in defer, '
            'runtime.Error) where a symbolic selector picks the panicking operation; trace and termination must equal the specification on every path.', 'DESIGN.md §4 C08'),
  'C09': tv('18 type-family templates: symbolic selectors pick the dynamic type (named vs underlying, unnamed composite types, same-named types declared in different functions or packages, struct types differing only in '
@@ -62,14 +62,14 @@ CHECKS = {
            'evaluating the reference on the real gopherjs+node output (there is no native counterpart).', 'DESIGN.md §4 C11'),
  'C13': tv('Overrides are exercised through templates importing math, math/bits, sync/atomic, unicode and gopherjs/nosync (the real overlay merge builds them): bits.Add32 (Mul32/Div32/Rem32 in the thorough tier), '
            'atomic Add/Swap/CompareAndSwap/Load/Store on int32/uint32/uintptr/int64 vs their sequential specification, nosync Mutex/RWMutex/WaitGroup/Once/Map/Pool histories chosen by symbolic selectors '
-           '(panic exactly where sync would block), unicode case-mapping laws, and math Floor/Ceil/Trunc/Sqrt/Copysign/Signbit/IsNaN/IsInf/Min/Max for every float64 in the SMT FloatingPoint theory.', 'DESIGN.md §4 C13'),
+           '(panic exactly where sync would block), unicode case-mapping laws, and math Floor/Ceil/Trunc/Sqrt/Copysign/Signbit/IsNaN/IsInf/Min/Max/Modf for every float64 (plus Ldexp on its fast path and at its edges) in the SMT FloatingPoint theory.', 'DESIGN.md §4 C13'),
  'C14': tv('13 templates over fully symbolic byte strings (every byte 0..255, length 0..4 quick / 0..5 thorough): range, []rune, string(rune) for every int32, string([]rune), indexing, slicing, compare, concat, '
            '[]byte round trip, copy/append from string, map key, switch, and awkward literals; the trace must equal a UTF-8 reference written from the specification on every path.', 'DESIGN.md §4 C14'),
- 'C15': tv('Two symbolic keys of each comparable key type (all integer widths, bool, string, named string, float64 incl. NaN/+-0, int/string arrays, structs, nested structs, struct with int64, interface with '
+ 'C15': tv('Two symbolic keys of each comparable key type (all integer widths, bool, string, named string, float64 incl. NaN/+-0, complex128 with NaN / signed-zero parts, int/string arrays, structs, nested structs, struct with int64, interface with '
            'int32 / named int32 / string / nil dynamic types, pointers) go through insert/overwrite/lookup/delete/len; results must be those dictated by Go == for all key values (strings include the separator and '
            'escape characters). Plus symbolic operation histories over three int8 keys and range-with-deletion.', 'DESIGN.md §4 C15'),
  'C16': tv('The C02/C07/C08/C14 corpora and a third of the C06 matrix are rebuilt with -m and the minified linked file is executed symbolically against the same references; plus minify-specific templates '
-           '(identifier exhaustion, shadowing, local types in closures, awkward string literals, adjacent unary/binary minus).', 'DESIGN.md §4 C16'),
+           '(identifier exhaustion past the reserved words do/if/in, shadowing, local types in closures, awkward string literals, adjacent unary/binary minus).', 'DESIGN.md §4 C16'),
 }
 K_NOTE = ('trusted: go/packages + go/ssa (x/tools v0.29.0), z3 5.1, the interpreter fork in engine/gosym (constructs it cannot follow end a path as "unsupported", which makes the harness incomplete, never passed), '
           'the harness code in harness/<id>/*.go (the reference is written inside the harness as plain Go) and the listed stubs. Violations are replayed natively (go test -overlay) before they are reported.')
